@@ -1,20 +1,21 @@
 #!/bin/bash
 # usage: scripts/mutant.sh <patch> <prop> [<prop>...]
-# Applies a patch to /repo, confirms the repository suite still passes (hooks off), runs the given
-# checks (quick) expecting a violation, and always restores /repo.
-patch="$1"; shift
+# Applies a patch to a scratch worktree of /repo (never to /repo itself), confirms the repository suite still
+# passes there (hooks off), runs the given checks (quick) against the scratch tree in an isolated output directory,
+# expecting a violation, and removes the worktree.
+patch="$(realpath "$1")"; shift
 cd /verif && . scripts/goenv.sh
-if ! git -C /repo diff --quiet; then echo "/repo has uncommitted changes"; exit 2; fi
-git -C /repo apply "$(cd /verif && realpath "$patch")" || { echo "patch does not apply"; exit 2; }
-trap 'git -C /repo checkout -- . ; git -C /repo clean -fdq' EXIT
-( cd /repo && "$VGO" build ./... && "$VGO" test -count=1 ./... >/tmp/mutant_suite.$$ 2>&1 ) ; suite=$?
-if [ $suite -ne 0 ]; then echo "SUITE-FAILS (mutant not admissible)"; tail -5 /tmp/mutant_suite.$$; rm -f /tmp/mutant_suite.$$; exit 3; fi
-rm -f /tmp/mutant_suite.$$
+wt=$(mktemp -d /tmp/mut.XXXXXX)
+git -C /repo worktree add -q --detach "$wt/repo" HEAD || exit 2
+trap 'git -C /repo worktree remove --force "$wt/repo" >/dev/null 2>&1; rm -rf "$wt"' EXIT
+git -C "$wt/repo" apply "$patch" || { echo "patch does not apply"; exit 2; }
+( cd "$wt/repo" && "$VGO" build ./... && "$VGO" test -count=1 ./... >"$wt/suite.log" 2>&1 ) ; suite=$?
+if [ $suite -ne 0 ]; then echo "SUITE-FAILS (mutant not admissible)"; tail -5 "$wt/suite.log"; exit 3; fi
 rc=0
 for p in "$@"; do
-  out=$(timeout 1500 ./check "$p" quick 2>&1); code=$?
+  out=$(VERIF_REPO="$wt/repo" VERIF_SCRATCH="$wt/out" timeout 1500 ./check "$p" quick 2>&1); code=$?
   n=$(echo "$out" | grep -c '^VIOLATION')
-  echo "$p exit=$code violations_printed=$n :: $(echo "$out" | grep -A1 '^VIOLATION' | grep clause | head -1 | cut -c1-220)"
-  if [ $code -ne 1 ]; then rc=1; fi
+  echo "$p exit=$code violations_printed=$n :: $(echo "$out" | grep -A1 '^VIOLATION' | grep clause | head -1 | cut -c1-260)"
+  if [ $code -ne 1 ]; then rc=1; echo "$out" | tail -2; fi
 done
 exit $rc
